@@ -31,6 +31,8 @@ mod k_dflt;
 mod k_enum;
 #[cfg(feature = "k_cache")]
 mod k_cache;
+#[cfg(feature = "k_disc")]
+mod k_disc;
 
 pub type OpResult = Result<Value, String>;
 
@@ -43,6 +45,8 @@ fn dispatch(op: &str, input: &mut Value) -> OpResult {
     "path" => k_path::eval(op, input),
     #[cfg(feature = "k_gen")]
     "gen" => k_gen::eval(op, input),
+    #[cfg(feature = "k_disc")]
+    "disc" => k_disc::eval(op, input),
     #[cfg(feature = "k_gen")]
     "resp" => k_resp::eval(op, input),
     #[cfg(feature = "k_gen")]
